@@ -525,16 +525,20 @@ pub fn generate(m: &SchemaModel, cfg: &GenCfg, rng: &mut Rng) -> Generated {
         }
         // variable operand
         let vt = op.variable_type(left)?;
+        // a variable may be shared between a property filter and a fold-count filter (both Int-shaped):
+        // the count use then narrows the variable to non-null
+        let cross = rng.chance(35);
         let reuse: Vec<usize> = vars
             .iter()
             .enumerate()
-            .filter(|(_, v)| v.uses[0].same_shape(&vt) && v.on_count == on_count)
+            .filter(|(_, v)| v.uses[0].same_shape(&vt) && (cross || v.on_count == on_count))
             .map(|(i, _)| i)
             .collect();
-        if !reuse.is_empty() && rng.chance(25) {
+        if !reuse.is_empty() && rng.chance(if cross { 50 } else { 25 }) {
             let i = *rng.pick(&reuse);
             vars[i].uses.push(vt);
             vars[i].ops.push(op);
+            vars[i].on_count = vars[i].on_count || on_count;
             return Some(Rhs::Var(vars[i].name.clone()));
         }
         let name = format!("v{}", vars.len());
